@@ -156,13 +156,13 @@ def check_concurrent(case):
 @st.composite
 def chunk_specs(draw, big):
     n = draw(st.sampled_from([0, 1, 2, 3, 5]))
-    sizes = st.sampled_from([0, 1, 7, 100, 1000, 5000] + ([70000, 140000, 300000] if big else []))
+    sizes = st.sampled_from([0, 1, 7, 100, 1000, 5000, 4096] + ([70000, 140000, 300000, 65536, 65536, 131072, 32768, 262144] if big else []))
     return [[draw(sizes), draw(st.sampled_from(KINDS)), draw(st.integers(0, 999))] for _ in range(n)]
 
 
 @st.composite
 def rt_case(draw):
-    big = draw(st.integers(0, 7)) == 0
+    big = draw(st.integers(0, 5)) == 0
     cuts = draw(st.lists(st.one_of(st.integers(0, 1000000), st.just(1000000), st.just(0)), max_size=8))
     return {'codec': draw(st.sampled_from(['gzip', 'zstd'])), 'chunks': draw(chunk_specs(big)), 'cuts': sorted(cuts)}
 
